@@ -480,6 +480,7 @@ pub fn run(sc: &Value) -> Vec<String> {
         resp.extend_from_slice(b"Content-Length: 2\r\n\r\nok");
         Some(Reply { bytes: resp, close: true })
     }));
+    world.wfail_first = gu(sc, "wfail");
     let world: Shared = Arc::new(Mutex::new(world));
     install_dialer(&world);
     let _ = life_take();
@@ -666,9 +667,11 @@ pub fn run(sc: &Value) -> Vec<String> {
         "compress": !cfg!(feature = "min") && settings.get("compress").and_then(|x| x.as_bool()).unwrap_or(true),
         // a user-defined body whose source fails at a write call: what it had handed over before
         "bodyFails": gu(&body_spec, "fail_at") > 0,
+        // the first connection broke for writing while the request went out (scenario field wfail)
+        "wfail": w.conns.first().map(|c| c.wfail_hit).unwrap_or(false),
         "failSent": ga(&body_spec, "writes").iter().take(gu(&body_spec, "fail_at").saturating_sub(1)).map(|x| x.as_u64().unwrap() as usize).sum::<usize>().min(gu(&body_spec, "len")),
         "session": req.get("session_headers").is_some()});
-    let reset_ev = json!({"ev":"reset","id":gs(sc,"id"),"req":req_ev,"settings":settings,"nodes":nodes,"bodyLen":expected_body.len(),"connect":connect_policy,"defaults":defaults});
+    let reset_ev = json!({"ev":"reset","id":gs(sc,"id"),"req":req_ev,"settings":settings,"nodes":nodes,"bodyLen":expected_body.len(),"connect":connect_policy,"defaults":defaults,"second":false});
     out.push(reset_ev.to_string());
     let first = FIRST.with(|f| f.borrow_mut().take());
     let split = first.as_ref().map(|f| f.1).unwrap_or(usize::MAX);
